@@ -159,6 +159,29 @@ func runC17(c *Ctx) {
 			}
 		}
 	}
+	// the answer is a function of the buffered stream's CURRENT state: HasContent touches no other field of the reader
+	// (a remembered answer goes stale as soon as the body is read)
+	nHC := 0
+	for _, in := range instrs(hc) {
+		fa, ok := in.(*ssa.FieldAddr)
+		if !ok {
+			continue
+		}
+		if n, stt := structOf(fa.X.Type()); n != nil && typeFullName(n) == peekT {
+			nHC++
+			c.obI("R17.1", fa, "answer-from-current-stream-state", stt.Field(fa.Field).Name() == "underlying", "HasContent answers from the buffered stream's current state only (Buffered/Peek now): it neither reads nor writes any other field of the reader, so asking again after reads is answered for the bytes that remain", "HasContent accesses field "+stt.Field(fa.Field).Name())
+		}
+	}
+	c.obF("R17.1", hc, "asks-the-buffered-stream", nHC >= 1, "HasContent consults the buffered stream", "")
+	// a wrapper is never shared between two probes: newPeekingReader returns nil or a wrapper it has just allocated
+	npr := p.Fn("rt.newPeekingReader")
+	for _, r := range realReturns(npr) {
+		ok, bad := allOrigins(resOf(r, 0), oNil(), func(o Origin) bool {
+			al, isAl := o.V.(*ssa.Alloc)
+			return isAl && al.Heap && al.Parent() == npr
+		})
+		c.obI("R17.1", r, "wrapper-always-new", ok, "newPeekingReader returns nil (no body) or a wrapper allocated by this call", "origin "+describeOrigin(bad))
+	}
 	for _, ci := range allCalls(hc) {
 		cc := ci.Common()
 		if !cc.IsInvoke() {
